@@ -77,7 +77,37 @@ func textCase(s string) {
 		if err := sb2.Add(str); err == nil && len(sb2.Rules) == 1 && sb2.Rules[0] == r {
 			rt = "ok"
 		}
-		return fmt.Sprintf("R ok %s S=%s RT=%s", ruleDump(r), hx(str), rt)
+		// the stored rule must be the rule the string denotes, evaluated on the implementation alone:
+		// (SF) a documented short form ("if the extra parameter is omitted it defaults to unsigned")
+		// is stored as its long form is; (KW) the stored rule prints with the string's own time
+		// constraint keyword and action word
+		words := strings.Split(s, ":")
+		sf := "na"
+		isShort := (len(words) == 4 && (words[0] == "absolute" || words[0] == "relative")) ||
+			(len(words) == 3 && (words[0] == "onvalid" || words[0] == "onrecv" || words[0] == "onexit"))
+		if isShort {
+			sf = "fail"
+			sb3 := new(simbox.Simbox)
+			if err := sb3.Add(s + ":unsigned"); err == nil && len(sb3.Rules) == 1 && sb3.Rules[0] == r {
+				sf = "ok"
+			}
+		}
+		pw := strings.Split(str, ":")
+		at := func(l []string, i int) string {
+			if i < len(l) {
+				return l[i]
+			}
+			return ""
+		}
+		ai := 1
+		if words[0] == "absolute" || words[0] == "relative" {
+			ai = 2
+		}
+		kw := "fail"
+		if at(pw, 0) == words[0] && (words[0] == "config" || at(pw, ai) == at(words, ai)) {
+			kw = "ok"
+		}
+		return fmt.Sprintf("R ok %s S=%s RT=%s SF=%s KW=%s", ruleDump(r), hx(str), rt, sf, kw)
 	})
 	out.Line("%s", res)
 }
@@ -641,9 +671,45 @@ func genSim(r *common.Rng) simCase {
 			addM("config:"+[]string{"get_all", "get_all_internal", "show_all", "show_all_internal"}[r.Intn(4)]+":"+fm(), 3-mode)
 		}
 	}
-	if r.Chance(1, 3) {
+	// event scenario: on-valid / on-exit show and get rules (short and long forms) on different
+	// elements in different orders, mixed with timed show rules on yet other elements, so that the
+	// slot of a watched element and the slot of its valid signal differ; inputs are set so that
+	// valid edges happen, and the loop is stopped on a valid output so that on-exit fires
+	eventScenario := func() {
+		evObjs := append([]string{}, io...)
+		if c.machine != "wirep" {
+			evObjs = append(evObjs, "p0i0")
+		}
+		fm := func() string { return []string{":unsigned", ":hex", ":bin", "", ""}[r.Intn(5)] }
+		for k := 2 + r.Intn(4); k > 0; k-- {
+			switch r.Intn(7) {
+			case 0, 1:
+				addM("onvalid:show:"+pick(r, io)+fm(), 2*r.Intn(2)*r.Intn(2))
+			case 2:
+				addM("onvalid:get:"+pick(r, io)+fm(), 2)
+			case 3, 4:
+				addM("onexit:show:"+pick(r, evObjs)+fm(), 2*r.Intn(2)*r.Intn(2))
+			case 5:
+				addM("onexit:get:"+pick(r, io)+fm(), 2)
+			default:
+				addM(pick(r, []string{"absolute:" + tk(), "relative:" + per()})+":show:"+pick(r, objs)+":"+ty(), 2)
+			}
+		}
+		addM("absolute:"+[]string{"0", "1", "2"}[r.Intn(3)]+":set:"+pick(r, []string{"i0", "i1"})+":"+val(), 2)
+		if r.Chance(1, 2) {
+			addM("absolute:"+tk()+":set:"+pick(r, []string{"i0", "i1"})+":"+val(), 2)
+		}
+		if r.Chance(2, 3) {
+			c.stop = r.Intn(2)
+		}
+	}
+	switch r.Intn(3) {
+	case 0:
 		bulkScenario()
 		n = r.Intn(4)
+	case 1:
+		eventScenario()
+		n = r.Intn(3)
 	}
 	for i := 0; i < n; i++ {
 		switch k := r.Intn(24); {
@@ -748,6 +814,14 @@ func fixedSims() []simCase {
 		mk("wirep", 4, -1, true, "config:get_ticks", "!config:get_all:unsigned", "absolute:1:get:i0:hex"),
 		mk("wirep", 4, -1, true, "!config:get_all:hex", "config:get_all:bin", "absolute:0:set:i1:200"),
 		mk("wirep", 4, -1, true, "!config:show_ticks", "!config:show_io_pre", "!config:show_io_post", "absolute:1:set:i0:5", "relative:1:get:o0:unsigned"),
+		// event rules in short form, and on-valid rules whose element slot differs from the slot of its valid signal
+		mk("wirep", 8, 0, false, "absolute:2:set:i0:5", "onexit:show:o0"),
+		mk("wirep", 8, 0, true, "absolute:2:set:i0:5", "onexit:show:i0", "onvalid:show:o0", "onexit:get:o1", "onvalid:get:i0"),
+		mk("wirep", 8, -1, false, "relative:3:show:i1:hex", "onvalid:show:o0:unsigned", "absolute:2:set:i0:5"),
+		mk("wirep", 8, -1, false, "onvalid:show:o1", "onvalid:show:o0", "absolute:2:set:i0:5", "absolute:4:set:i1:9"),
+		mk("wirep", 8, 1, true, "onvalid:get:i0", "onvalid:get:o1", "onvalid:show:i1:bin", "absolute:1:set:i1:9", "onexit:show:o1:hex"),
+		mk("fan", 8, 1, false, "absolute:0:show:p0r1", "onexit:show:o0", "onvalid:show:o1:hex", "onvalid:show:i0", "absolute:1:set:i0:200"),
+		mk("proc", 8, -1, false, "absolute:1:show:p0r0", "absolute:1:show:p0r2", "onvalid:show:i1", "onvalid:show:o1:hex", "absolute:2:set:i1:17"),
 	}
 }
 
